@@ -21,7 +21,7 @@ struct Ctx {
 #[derive(Clone, Hash)]
 struct Model {
     advances: u8,
-    members: [bool; 3],
+    members: [bool; 4],
     owner: usize,
     count: u32,
 }
@@ -72,6 +72,11 @@ fn echo_val(i: u8) -> ScVal {
     }
 }
 
+/// operator candidate -> principal index (candidate 3 is the account-type address)
+fn who(acct: usize) -> usize {
+    if acct == 3 { 8 } else { acct }
+}
+
 impl Scenario for C17 {
     type Ctx = Ctx;
     type M = Model;
@@ -89,9 +94,14 @@ impl Scenario for C17 {
         let ops = env.register(axelar_operators::AxelarOperators, (p[3].clone(),));
         p.push(Address::from_string(&soroban_sdk::String::from_str(env, "GAAAAAAAAAAAAAAAAAAAAAAAAAAAAAAAAAAAAAAAAAAAAAAAAAAAAWHF")));
         p.push(ops.clone());
+        // 8: an account-type (G...) address that the owner may make an operator; nobody signs for it here
+        p.push(axmc::its::addr_from_sc(
+            &w,
+            &soroban_sdk::xdr::ScAddress::Account(soroban_sdk::xdr::AccountId(soroban_sdk::xdr::PublicKey::PublicKeyTypeEd25519(soroban_sdk::xdr::Uint256([9; 32])))),
+        ));
         let probe = env.register(Probe, ());
         let probe2 = env.register(Probe, ());
-        (Ctx { w, ops, probe, probe2, p }, Model { advances: 0, members: [false; 3], owner: 3, count: 0 })
+        (Ctx { w, ops, probe, probe2, p }, Model { advances: 0, members: [false; 4], owner: 3, count: 0 })
     }
 
     fn actions(&self, _ctx: &Ctx, m: &Model) -> Vec<Act> {
@@ -102,7 +112,8 @@ impl Scenario for C17 {
             // the world's keeper (World::set_seq) keeps instance / persistent entries alive
             v.push(Act::Advance(7_000_000));
         }
-        for acct in 0..3 {
+        // account 3 is the account-type address (principal 8)
+        for acct in 0..4 {
             for by in [3usize, 4, 5] {
                 v.push(Act::AddOp { acct, by });
                 v.push(Act::RemoveOp { acct, by });
@@ -118,6 +129,10 @@ impl Scenario for C17 {
         if m.count < 2 {
             targets.push(Target::Record);
         }
+        // the account-type candidate: nobody can sign for it in this world, so whether it is an
+        // operator or not, a call naming it must be refused (a stranger signing / nobody signing)
+        v.push(Act::Execute { caller: 3, auth: 1, target: Target::Add });
+        v.push(Act::Execute { caller: 3, auth: 2, target: Target::Add });
         for caller in 0..3usize {
             for t in &targets {
                 v.push(Act::Execute { caller, auth: 0, target: *t });
@@ -152,7 +167,7 @@ impl Scenario for C17 {
             Act::AddOp { acct, by } | Act::RemoveOp { acct, by } => {
                 let add = matches!(a, Act::AddOp { .. });
                 out.kind = if add { "add_operator" } else { "remove_operator" };
-                let call = w.call(&ctx.ops, if add { "add_operator" } else { "remove_operator" }, &[p[*acct].to_val()], Auth::By(&[p[*by].clone()]));
+                let call = w.call(&ctx.ops, if add { "add_operator" } else { "remove_operator" }, &[p[who(*acct)].to_val()], Auth::By(&[p[*by].clone()]));
                 let want = *by == m.owner && m.members[*acct] != add;
                 out.accepted = call.ok;
                 out.expect(call.ok == want, "membership.outcome", || format!("{:?}: ok={} ({}), model {} (members {:?}, owner {})", a, call.ok, call.err, want, m.members, m.owner));
@@ -160,7 +175,7 @@ impl Scenario for C17 {
                     if want { m.members[*acct] = add; }
                     let r = match_events(
                         &call.events,
-                        &[EvPat { contract: opsc, name: if add { "operator_added" } else { "operator_removed" }, must: vec![w.sc_addr_val(&p[*acct])] }],
+                        &[EvPat { contract: opsc, name: if add { "operator_added" } else { "operator_removed" }, must: vec![w.sc_addr_val(&p[who(*acct)])] }],
                         &["operator_added", "operator_removed"],
                     );
                     out.expect(r.is_ok(), "membership.event", || r.unwrap_err());
@@ -204,16 +219,16 @@ impl Scenario for C17 {
                 };
                 let argv: soroban_sdk::Vec<Val> = soroban_sdk::Vec::from_slice(env, &args);
                 let signers: Vec<Address> = match auth {
-                    0 | 4 | 5 | 6 => vec![p[*caller].clone()],
+                    0 | 4 | 5 | 6 => vec![p[who(*caller)].clone()],
                     1 => vec![p[5].clone()],
                     2 => vec![],
                     _ => vec![p[m.owner].clone()],
                 };
-                let call_args = [p[*caller].to_val(), ctx.probe.to_val(), Symbol::new(env, func).to_val(), argv.to_val()];
-                let other_fn = [p[*caller].to_val(), ctx.probe.to_val(), Symbol::new(env, "sub").to_val(), argv.to_val()];
-                let other_target = [p[*caller].to_val(), ctx.probe2.to_val(), Symbol::new(env, func).to_val(), argv.to_val()];
+                let call_args = [p[who(*caller)].to_val(), ctx.probe.to_val(), Symbol::new(env, func).to_val(), argv.to_val()];
+                let other_fn = [p[who(*caller)].to_val(), ctx.probe.to_val(), Symbol::new(env, "sub").to_val(), argv.to_val()];
+                let other_target = [p[who(*caller)].to_val(), ctx.probe2.to_val(), Symbol::new(env, func).to_val(), argv.to_val()];
                 let other_argv: soroban_sdk::Vec<Val> = soroban_sdk::Vec::from_slice(env, &[w.v(2i128), w.v(4i128)]);
-                let other_args = [p[*caller].to_val(), ctx.probe.to_val(), Symbol::new(env, func).to_val(), other_argv.to_val()];
+                let other_args = [p[who(*caller)].to_val(), ctx.probe.to_val(), Symbol::new(env, func).to_val(), other_argv.to_val()];
                 let call = w.call(
                     &ctx.ops,
                     "execute",
@@ -225,7 +240,7 @@ impl Scenario for C17 {
                         _ => Auth::By(&signers),
                     },
                 );
-                let member = *caller < 3 && m.members[*caller];
+                let member = *caller < 4 && m.members[*caller];
                 let want = member && *auth == 0 && target_ok;
                 out.accepted = call.ok;
                 out.expect(call.ok == want, "execute.outcome", || {
@@ -254,9 +269,9 @@ impl Scenario for C17 {
 
     fn probe(&self, ctx: &Ctx, m: &Model, out: &mut StepOut) {
         let w = &ctx.w;
-        for i in 0..6usize {
+        for i in [0usize, 1, 2, 3, 4, 5, 8] {
             let q = w.query(&ctx.ops, "is_operator", &[ctx.p[i].to_val()]);
-            let want = i < 3 && m.members[i];
+            let want = (i < 3 && m.members[i]) || (i == 8 && m.members[3]);
             out.expect(q == Some(ScVal::Bool(want)), "probe.is_operator", || format!("account {}: {:?} vs {}", i, q, want));
         }
         let q = w.query(&ctx.ops, "owner", &[]);
@@ -272,10 +287,10 @@ impl Scenario for C17 {
 
 fn main() {
     main_for(|tier| {
-        let mut o = Opts::new(tier, if tier == "thorough" { 12 } else { 8 });
+        let mut o = Opts::new(tier, if tier == "thorough" { 14 } else { 10 });
         o.min_depth = 4;
         o.xcheck = tier == "thorough";
-        o.rule = "all sequences over add/remove operator X, Y, Z by {owner O, other owner N, stranger}, ownership transfers O<->N (and by non-owners, to self, to the all-zero account = renouncing, to the operators contract itself, and take-over attempts afterwards), execute by caller X/Y/Z authorised by {itself, a stranger, nobody, the owner, itself but for another forwarded function with the same arguments, itself but for another target contract, itself but for other forwarded arguments} forwarding to a probe contract: echo of 12 values of different types (incl. false, true, 0, the empty string, void), add(2,3), record(7,tag) (writes + emits, bounded to 2), a target returning an error, a panicking target, a missing function, wrong arity; explored to fixpoint; is_operator for all six accounts, owner() and the probe's delivery count compared after every new state".into();
+        o.rule = "all sequences over add/remove operator X, Y, Z and an account-type address by {owner O, other owner N, stranger}, ownership transfers O<->N (and by non-owners, to self, to the all-zero account = renouncing, to the operators contract itself, and take-over attempts afterwards), execute by caller X/Y/Z authorised by {itself, a stranger, nobody, the owner, itself but for another forwarded function with the same arguments, itself but for another target contract, itself but for other forwarded arguments} forwarding to a probe contract: echo of 12 values of different types (incl. false, true, 0, the empty string, void), add(2,3), record(7,tag) (writes + emits, bounded to 2), a target returning an error, a panicking target, a missing function, wrong arity; explored to fixpoint; is_operator for all six accounts, owner() and the probe's delivery count compared after every new state".into();
         (C17, o)
     });
 }
